@@ -70,6 +70,19 @@ def exhaustive_type_table(eng):
                     code = (1000 if vendor is None else 2000) + ti
                     for v in leafs:
                         cases.append(hist_line("g", ("NEW", 272, 4, 0x80, 1, 2), [("ADDAVP", code, vendor, fl, v)]))
+    # built with vendor id None although the dictionary defines the code only under a vendor (and the other way round), and with a value
+    # of a narrower / wider / other kind than the dictionary declares for the code: the builder does not consult the dictionary - what
+    # goes out is what it was given
+    for kind in gen.LEAF_KINDS:
+        ti = TYS.index(KIND_TY.get(kind, "grp")) - 1
+        leaf = ("L", gen.gen_leaf(r, kind))
+        cases.append(hist_line("g", ("NEW", 272, 4, 0x80, 1, 2), [("ADDAVP", 2000 + ti, None, 0x40, leaf)]))
+        cases.append(hist_line("g", ("NEW", 272, 4, 0x80, 1, 2), [("ADDAVP", 1000 + ti, 10415, 0x40, leaf)]))
+    for (code_kind, val_kind) in (("u64", "u32"), ("i64", "i32"), ("u32", "u64"), ("i32", "i64"), ("f64", "f32"), ("utf", "oct"), ("oct", "utf"), ("time", "u32"), ("en", "i32"), ("ip6", "ip4"), ("a6", "ip6"), ("id", "utf")):
+        ti = TYS.index(KIND_TY[code_kind]) - 1
+        for vendor in (None, 10415):
+            cases.append(hist_line("g", ("NEW", 272, 4, 0x80, 1, 2), [("ADDAVP", (1000 if vendor is None else 2000) + ti, vendor, 0x40, ("L", gen.gen_leaf(r, val_kind))),
+                                                                     ("ADDAVP", 1011, None, 0, ("L", ("oct", b"next")))]))
     # every value length 0 .. 70 (and around 255 / 256) for the variable-length types, with and without a vendor id: whatever small-value
     # path an encoder has, its boundary is in here
     for kind in ("oct", "utf"):
@@ -747,6 +760,21 @@ def value_position_sweeps(eng, tier):
             out.append(("address-family-length", "g", frame(a, data), False if not legal else (fam != 8 or 1 <= n <= 15)))
     for n in (0, 1):
         out.append(("address-family-length", "g", frame(a, bytes(n)), False))
+    # E.164 numbers with octets above 0x7f: well-formed UTF-8 is text like any other (accepted, octets kept), ill-formed UTF-8 is refused
+    for num, ok in ((b"123\xc3\xa9456", True), ("12\u20ac3".encode(), True), (b"123\xe9456", False), (b"\xff", False), (b"12\xc3", False), (b"1\x80", False), (b"\xc3\xa9", True)):
+        out.append(("address-e164-octets", "g", frame(a, gen.be(8, 2) + num), ok))
+    # text values of 1100 ... 2100 octets in ascending and descending order, one after the other on one decoder thread (a scratch buffer
+    # that grew for one value is there for the next)
+    for ty in ("utf", "id"):
+        for n in (1100, 1500, 1800, 1300, 2100, 1025, 1024, 2099):
+            out.append(("long-texts-in-a-row", "g", frame(by[ty]["code"], bytes(0x61 + (i * 7) % 26 for i in range(n))), True))
+        # ... and within ONE frame (cases of a run are dealt out to several worker processes)
+        for sizes in ((1100, 1500, 1800), (1500, 1800, 1300, 2100), (1025, 1030, 1040, 1100, 1200, 1600, 2047, 2048, 2049), (3000, 2000, 2500, 4000)):
+            body = b""
+            for n in sizes:
+                ln = 8 + n
+                body += gen.be(by[ty]["code"], 4) + bytes([0x40]) + gen.be(ln, 3) + bytes(0x61 + (i * 5) % 26 for i in range(n)) + b"\0" * ((4 - ln % 4) % 4)
+            out.append(("long-texts-in-a-row", "g", bytes([1]) + gen.be(20 + len(body), 3) + bytes([0x80]) + gen.be(272, 3) + gen.be(4, 4) + gen.be(1, 4) + gen.be(2, 4) + body, True))
     # the address forms a library might want to "normalise" (IPv4-mapped / -compatible IPv6, NAT64, 6to4, unspecified, all ones,
     # loopback, link-local, multicast; 0.0.0.0, broadcast, loopback): each is accepted and is the value its octets say
     for ty in ("utf", "id", "uri", "oct"):
@@ -892,6 +920,8 @@ def check_C04(chk, tier, seed):
     fam = frame_families(rng, eng, frames, 25 if tier == "quick" else 80, thorough=(tier == "thorough"))
     fam += [("regress", c.split()[1], bytes.fromhex(c.split()[2][1:]), False) for c in regress_cases("C04") if c.startswith("X ")]
     fam += [("display-stress", did, f, True) for did, f in display_stress_frames(eng)]
+    # (the value families of C03 that are about what a decoder keeps between values or takes apart: none may panic either)
+    fam += [x for x in value_position_sweeps(eng, tier) if x[0].startswith(("long-texts", "address-e164", "builtin-special-group", "text-special", "address-special"))]
     # AVPs the dictionary lists with a data type the library does not implement (e.g. IPFilterRule in the built-in
     # dictionary), and AVPs it does not list at all: to be refused with an error, at top level and inside a group
     for did in ("b", "g"):
